@@ -29,11 +29,12 @@ def closure_sel(trait_closure, wb, post, ctor, fut=False):
     open spec fn pre_c(&self) -> bool { %s }
     #[verifier::prophetic]
     open spec fn post_c(&self, enc: spec_fn(Blk) -> Blk) -> bool {
-        self.f.%s(%s(enc), %s, %s)
+        self.f.%s(%s(enc), %s, %s)%s
     }
 ''' % ('self.f.pre()' if post == 'post' else 'self.f.kpre()', post, ctor,
        'seq![self.iv@]' if post == 'post' else 'KAbs { base: self.iv@, pos: 0 }',
-       'seq![mut_ref_future(self.iv)@]' if post == 'post' else 'KAbs { base: mut_ref_future(self.iv)@, pos: 0 }'),
+       'seq![mut_ref_future(self.iv)@]' if post == 'post' else 'KAbs { base: mut_ref_future(self.iv)@, pos: 0 }',
+       '' if post == 'post' else '\n        && ks_reach(ofb_ks(enc), KAbs { base: self.iv@, pos: 0 }, KAbs { base: mut_ref_future(self.iv)@, pos: 0 })'),
             fns={'call': FnC(props=('C07', 'C03', 'C14'), inherits=True, note='plumbing')}),
     ]
 
@@ -52,6 +53,7 @@ def unit():
     open spec fn kabs(&self) -> KAbs { KAbs { base: self.iv@, pos: 0 } }
     open spec fn kstep(&self) -> KStep { ofb_ks(self.cipher.enc_fn()) }
     open spec fn klimit(&self) -> Option<int> { None }
+    open spec fn korigin(&self) -> KAbs { KAbs { base: Seq::empty(), pos: 0 } }
 ''', fns={'remaining_blocks': FnC(ret='r', props=('C11',), inherits=True, ensures=[('none', ('C11',), 'r is None')]),
           'process_with_backend': FnC(props=('C07', 'C03', 'C14'), inherits=True, note='plumbing')})]
     items += closure_sel('BlockModeEncClosure', 'encrypt_with_backend', 'post', 'ofb_step')
